@@ -28,6 +28,10 @@ CLAIMED = {
          "7.C05", "Coq proof (permutation invariance, set algebra) + extracted-model correspondence"),
  "C06": ("Coq theorems: three-layer pre-release gate for Specifier and SpecifierSet, finals unaffected, enabling monotone, filter() is the exact filter in input order on the very input items, both fall-back cases as iff, installed=True judged by base version, outputs depend only on the latest override (induction over operation sequences), chained member filters commute; tied to the code by operation-sequence correspondence incl. item identity",
          "7.C06", "Coq proof (state machine invariant by induction over op lists) + extracted-model correspondence"),
+ "C17": ("Coq theorems on the model of Metadata.from_raw/from_email and the _Validator descriptor: acceptance iff the conjunction of the statement, otherwise one group naming exactly the offending fields (for every iteration order of the key set), enriched values per field, absent optional = None, lazy validation defers the same errors, every read sequence returns the conversion of the original raw value (cache invariant by induction), from_email = unparsed keys ++ raw errors; the 'added in' table is regenerated from the working tree on every run and proved equal to the core-metadata table; component validators (SpecifierSet, Requirement, licence, content type, pathlib) enter as oracles answered by the real components",
+         "7.C17", "Coq proof (acceptance characterisation, cache invariant by induction) + generated-table lemma + extracted-model correspondence"),
+ "C18": ("Coq theorems on the post-processing of parse_email (after the email package): partition of header names between the two dicts, nothing invented or dropped, typing per field kind, document order, keyword splitting, Project-URL pairs, the description/body rule, round trip of a well-formed RawMetadata under the stated oracle assumption about the email parser; the header list and payload are obtained from the same email calls the implementation makes",
+         "7.C18", "Coq proof (partition / no-loss by induction over header lists) + extracted-model correspondence; email package as oracle"),
 }
 NA_REASON = "check not built yet in this revision (planned, see DESIGN.md section 7); nothing is claimed"
 checks, na = [], []
